@@ -89,9 +89,6 @@ impl Executor for StatefulExecutor {
             let name = format!("exec{}", index + 1);
             let mut testcase = (*testcase).clone();
 
-            // apply document-wide testcase defaults
-            testcase.config = testcase.config.with_defaults_from(&context.config.defaults);
-
             // waiting on previous execution; the time this takes counts towards the
             // global timeout, so it comes before the remaining time is looked at
             if let Some(ref wait) = testcase.config.wait {
